@@ -55,7 +55,10 @@ func vNewTwin(suffix string, disableGC bool) *vTwin {
 func VerifR4GCTwin() {
 	g := vNewTwin("", false) // GC on
 	n := vNewTwin("N", true) // GC off (document.WithDisableGC, no response vector)
-	// (the universes never exchange changes; their actor ids are independent)
+	// (the universes never exchange changes; their actor ids are independent
+	// symbols, but ordered alike, so that concurrent writes have the same
+	// last-writer in both)
+	zzvsym.Assume((g.a.ActorID().Compare(g.b.ActorID()) < 0) == (n.a.ActorID().Compare(n.b.ActorID()) < 0))
 	typ := zzvsym.IntRange("type", 0, vNumTypes-1)
 	vSmallAlphabet = true
 	for _, t := range []*vTwin{g, n} {
@@ -95,7 +98,9 @@ func VerifR4GCTwin() {
 		for i := 0; i < k; i++ {
 			both(func(t *vTwin) { t.s.sync(1, t.b) })
 		}
-		if zzvsym.Tier() > 0 && zzvsym.IntRange(vName("editB", r), 0, 1) == 1 {
+		// the peer edits concurrently: always for objects (small alphabet),
+		// for the other types in the thorough tier
+		if (zzvsym.Tier() > 0 || typ == vTObject) && zzvsym.IntRange(vName("editB", r), 0, 1) == 1 {
 			edit(vName("b", r), 1, 20+r)
 			both(func(t *vTwin) { t.s.sync(1, t.b) })
 		}
